@@ -20,7 +20,7 @@ JAR = "/opt/veriftools/tla/tla2tools.jar:/opt/veriftools/tla/CommunityModules-de
 
 
 def tlc_cmd(extra_java=()):
-    return ["java", "-XX:+UseParallelGC", "-Xss64m"] + list(extra_java) + [
+    return ["java", "-XX:+UseParallelGC", "-Xss1g"] + list(extra_java) + [
         "-Dtlc2.overrides.TLCOverrides=tlc2.overrides.TLCOverrides:tlc2.overrides.VerifOverrides",
         "-cp", JAR + ":" + os.path.join(vbuild.CACHE, "classes"), "tlc2.TLC"]
 
